@@ -116,6 +116,11 @@ _md_specials_pat = re.compile(r"^([-*+>]|#+)$")
 # Separate pattern to specifically find the numbered list cases for targeted escaping
 _md_numeral_pat = re.compile(r"^[0-9]+[.)]$")
 
+# Other words that would start a different block if they began a wrapped line: a block
+# quote (`>>`, `>word`), a setext underline or thematic break made of one repeated
+# character (`===`, `--`, `***`, `___`), or a code fence (```` ``` ````, `~~~python`).
+_md_block_start_pat = re.compile(r"^(>.+|=+|-{2,}|\*{3,}|_{3,}|`{3,}[^`]*|~{3,}.*)$")
+
 
 def markdown_escape_word(word: str) -> str:
     """
@@ -126,7 +131,7 @@ def markdown_escape_word(word: str) -> str:
     if _md_numeral_pat.match(word):
         # Insert backslash before the `.` or `)`
         return word[:-1] + "\\" + word[-1]
-    elif _md_specials_pat.match(word):
+    elif _md_specials_pat.match(word) or _md_block_start_pat.match(word):
         return "\\" + word
     return word
 
